@@ -6,12 +6,20 @@ def run(ctx):
     ctx.tlc_mc("MC_SnfSteps", "MC_SnfSteps.thorough.cfg" if ctx.thorough else "MC_SnfSteps.cfg", workers=8, timeout=2400, coverage=False)
     # the result contract pins the diagonal down (gcd-of-minors definition) on all small integer matrices
     ctx.tlc_mc("MC_SNF", "MC_SNF.thorough.cfg" if ctx.thorough else "MC_SNF.cfg", workers=1, coverage=False, timeout=1800, cache=True)
+    # A: TLC enumerates every small integer matrix (2x2 entries -3..3, 2x3 / 3x2 entries -1..1; thorough: 2x3 entries -2..2, 3x3 entries -1..1)
+    cfgs = ["2x2v3", "2x3v1", "3x2v1"] + (["2x3v2", "3x3v1"] if ctx.thorough else [])
+    path = ctx.path("gen_all.ndjson")
+    nen = 0
+    with open(path, "w") as f:
+        for c in cfgs:
+            pth, objs = ctx.tlc_gen("Gen_SmallMats", "Gen_SmallMats.%s.cfg" % c, workers=1, out_name="gen_%s.ndjson" % c)
+            f.write(open(pth).read()); nen += len(objs)
     trace = ctx.path("trace.ndjson")
-    summ, _, _ = ctx.yv("c09", "record", "--seed", ctx.seed, "--tier", ctx.tier, "--out", trace, timeout=3000)
+    summ, _, _ = ctx.yv("c09", "record", "--seed", ctx.seed, "--tier", ctx.tier, "--in", path, "--out", trace, timeout=3000)
     rec = summ["record"]
     r = ctx.tlc_trace("Trace_SNF", "Trace_SNF.cfg", trace, timeout=3000)
     ctx.trace_verdict(r, trace, "snf call")
-    ctx.cov["conformance"].append({"direction": "impl->spec", **rec, "accepted": r["accepted"]})
+    ctx.cov["conformance"].append({"direction": "spec->impl inputs + impl->spec validation", **rec, "accepted": r["accepted"], "tlc_enumerated_matrices": nen})
     ctx.cov["evaluations"] += rec["events"]
     ctx.cov["distinct_nontrivial"] += rec["cases"] - rec["zero_dimensional_cases"]
     if r["accepted"]:
